@@ -149,7 +149,9 @@ def run(st, drv, root, batch):
         else:
             main, disk, mf = build(main_items, files, world)
         m = reftext.meaning(I2, 0, main, files=mf)
-        decoys = ['mkdir ' + enc(b'sp1/' + n) for n in files] if world.placement == 'sp2' else []      # a directory of the same name in the earlier search directory never matches
+        subdirs = sorted(set(os.path.dirname(k) for k in disk if b'/' in k.replace(b'sp1/', b'', 1).replace(b'sp2/', b'', 1)))
+        mk = ['mkdir ' + enc(d_) for d_ in subdirs]        # names with a directory part live below the search directory too
+        decoys = mk + (['mkdir ' + enc(b'sp1/' + n) for n in files if b'/' not in n] if world.placement == 'sp2' else [])      # a directory of the same name in the earlier search directory never matches
         lines = world.setup() + decoys + ['mkfile %s %s' % (enc(n), enc(c)) for n, c in disk.items()]
         lines += ['init A I2 0'] + world.paths() + ['parse_buf A ' + enc(main), 'dump A 0', 'lexstate']
         c = Case(lines)
@@ -275,6 +277,8 @@ SPECIAL = [
     ('section-opened-in-file-closed-outside-ok', b'include("@f1.conf")\nx = 4 }\ni = 7', {b'f1.conf': b'sec {\n'}, b'sec {\nx = 4 }\ni = 7'),
     ('section-closed-inside-the-file', b'sec {\ninclude("@f1.conf")\ni = 7', {b'f1.conf': b'x = 4 }\ni = x\n'}, None),
     ('section-closed-inside-the-file-ok', b'sec {\ninclude("@f1.conf")\ni = x', {b'f1.conf': b'x = 4 }\ni = 8\n'}, None),
+    ('name-with-a-directory-part', b'i = 7\ninclude("@dir/f1.conf")\nl += {2}', {b'dir/f1.conf': b'x = 4\ni = 8\n'.replace(b'x = 4\n', b'')}, b'i = 7\ni = 8\nl += {2}'),
+    ('name-with-a-directory-part-nested', b'sec { include("@dir/f1.conf") }', {b'dir/f1.conf': b'include("@dir/f2.conf")\n', b'dir/f2.conf': b'x = 4\n'}, b'sec { x = 4 }'),
     ('unterminated-string-in-file', b'include("@f1.conf")\ni = 8', {b'f1.conf': b's = "abc'}, None),
     ('unterminated-comment-in-file', b'include("@f1.conf")\ni = 8', {b'f1.conf': b'i = 7 /* abc'}, None),
     ('titled-instances-across-files', b'include("@f1.conf") include("@f2.conf")', {b'f1.conf': b'm { x = 1 }', b'f2.conf': b'm { x = 2 } m { }'}, b'm { x = 1 } m { x = 2 } m { }'),
